@@ -53,23 +53,32 @@ theorem C13_proto_port_when_absent (c : Ctx) (fs : List Field) (hid : IdNameOK c
       (if hasHdr sXFPort fs then namedFields sXFPort fs else [.hdr cXFPort c.publicAddr.port]) :=
   ⟨proto_when_absent c fs hid, port_when_absent c fs hid⟩
 
-/-- **Exactly one request id and one correlation header** — provable only
-    when the client sent at most one `X-Request-Id` and no field named like
-    the listener's correlation header (finding F15). -/
-theorem C13_single_ids_partial (c : Ctx) (fs : List Field) (hid : IdNameOK c)
-    (h1 : (namedFields sXRequestId fs).length ≤ 1) (h2 : namedFields c.sozuIdHeader fs = []) :
+/-- **Exactly one request id and one correlation header** (full strength:
+    every context whose correlation header name does not collide with a
+    forwarding header, every header block list — any number of client
+    `X-Request-Id` fields, any number of client fields named like the
+    correlation header, in any case). Exactly one `X-Request-Id` and exactly
+    one correlation header reach the backend, the latter carrying sozu's
+    request id. (Needed two extra hypotheses before `fix: forward exactly one
+    X-Request-Id and never a client-supplied correlation header`; F15.) -/
+theorem C13_single_ids (c : Ctx) (fs : List Field) (hid : IdNameOK c) :
     (namedFields sXRequestId (editRequest c fs)).length = 1 ∧
     namedFields c.sozuIdHeader (editRequest c fs) = [.hdr c.sozuIdHeader c.requestId] :=
-  single_ids c fs hid h1 h2
+  single_ids c fs hid
 
-/-- the excluded points really fail: two client `X-Request-Id` fields both
-    reach the backend, and a client field named like the correlation header
-    makes two (harness classes `ids-dup-x-request-id`,
-    `ids-client-correlation-header`) -/
-theorem C13_single_ids_counterexample :
-    (namedFields sXRequestId (editRequest exampleCtx [.hdr sXRequestId [49], .hdr sXRequestId [50]])).length = 2 ∧
-    (namedFields exampleCtx.sozuIdHeader (editRequest exampleCtx [.hdr exampleCtx.sozuIdHeader [49]])).length = 2 := by
-  decide
+/-- the first client `X-Request-Id` is the one that is kept -/
+theorem C13_request_id_first_wins (c : Ctx) (fs : List Field) (hid : IdNameOK c) (k v : Bytes) (rest : List Field)
+    (h : namedFields sXRequestId fs = .hdr k v :: rest) :
+    namedFields sXRequestId (editRequest c fs) = [.hdr k v] :=
+  request_id_first c fs hid k v rest h
+
+/-- regression examples (the former counterexamples of F15): two client
+    `X-Request-Id` fields, and a client field named like the correlation header -/
+example : namedFields sXRequestId (editRequest exampleCtx [.hdr sXRequestId [49], .hdr sXRequestId [50]])
+    = [.hdr sXRequestId [49]] := by decide
+
+example : namedFields exampleCtx.sozuIdHeader (editRequest exampleCtx [.hdr exampleCtx.sozuIdHeader [49]])
+    = [.hdr exampleCtx.sozuIdHeader exampleCtx.requestId] := by decide
 
 /-- **Nothing connection-specific crosses into HTTP/2**, for every request:
     no `connection` / `proxy-connection` / `transfer-encoding` / `upgrade` /
